@@ -8,8 +8,8 @@ CONSTANTS
   AR = {"XR"}
   AdvIds = {"M", "K", "U"}
   VerCfgs = {1}
-  Ops = {"id", "flip_p", "idx", "splice_e"}
-  PKinds = {"full", "empty", "nocert"}
+  Ops = {"id", "flip_p", "idx", "splice_e", "splice_p", "cert_keep"}
+  PKinds = {"full", "empty", "nocert", "keep"}
   SKinds = {"own"}
   Misuse = FALSE
   Scns = {"all"}
